@@ -20,6 +20,8 @@ def obligations(tier):
                     obs.append(Ob(f"C03.sustain.M4.first{f}{g}", "CH", "harness.h_instrument", "complex_sustain", 1500,
                                   {"VF_M": 4, "VF_FIRST": f, "VF_SECOND": g}, funcs=(IN + "complex_sustain_from_parsed_datas",),
                                   bounds="4 data, first two indices fixed per partition"))
+    obs.append(Ob("C03.long_map.index.K10", "CH", "harness.h_big", "index_big", 900, {"VF_KB": 10}, funcs=("chartparse.sync.BPMEvents._index_of_proximal_event",),
+                  bounds="end times are tempo-map lookups: 10 tempo events with symbolic ticks, every hint (sustains spanning many tempo changes)"))
     obs += [
         Ob("C03.sustain_subsets", "CH", "harness.h_instrument", "sustain_subsets", 900, funcs=(IN + "complex_sustain_from_parsed_datas", IN + "_refined_sustain_tuple"),
            bounds="all 31 lane subsets (up to 5 lane lines + a flag line), one symbolic base length, one lane differing by a symbolic delta"),
